@@ -11,6 +11,8 @@ Templates are lists of nodes:
     ["t", text]  literal          ["v", x]    {{ x }}
     ["i", name]  {% include %}    ["m", name] {% import name as impK %}{{ impK }}
     ["p", key]   {{ python[key] }}
+    ["io", name] {% include name ignore missing %}: Jinja compiles it to `try: t = get_template(name) except
+                 TemplateNotFound: pass else: <render t>` — only the failure to GET that very template is swallowed
 """
 import json
 import os
@@ -71,6 +73,8 @@ def jinja_source(tmpl, world):
             out.append("{{ %s }}" % arg)
         elif tag == "i":
             out.append('{%% include "%s" %%}' % subst(arg, world))
+        elif tag == "io":
+            out.append('{%% include "%s" ignore missing %%}' % subst(arg, world))
         elif tag == "m":
             out.append('{%% import "%s" as imp%d %%}{{ imp%d }}' % (subst(arg, world), k, k))
         elif tag == "p":
@@ -129,11 +133,17 @@ def model_cfg(cfg, world):
     }
 
 
+# node tags whose argument is a template name
+NAME_TAGS = ("i", "io", "m", "j", "y")
+# share of the generated plain includes that carry `ignore missing`
+OPTIONAL_INCLUDE_SHARE = 0.25
+
+
 def subst_tmpl(tmpl, world):
     """a template as the MODEL sees it: `import_json` of a data file is an import whose value is the file's text (the
     JSON quoting the adapter writes and the parsing `import_json` does cancel: json.loads(json.dumps(t)) == t)"""
     m = {"j": "m", "y": "m", "q": "t"}
-    return [[m.get(tag, tag), subst(arg, world) if tag in ("i", "m", "j", "y") else arg] for tag, arg in tmpl]
+    return [[m.get(tag, tag), subst(arg, world) if tag in NAME_TAGS else arg] for tag, arg in tmpl]
 
 
 def history_request(case, obs):
@@ -238,6 +248,8 @@ def gen_tmpl(rng, cfg, level, path, version, flat_imports, via_import=False, poo
                 tag = "j"
             elif target.endswith(".yaml"):
                 tag = "y"
+            elif tag == "i" and rng.random() < OPTIONAL_INCLUDE_SHARE:
+                tag = "io"
             nodes.append([tag, gen_ref_name(rng, rel, path, target, cfg.get("root"))])
         elif r < 0.75:
             nodes.append(["v", rng.choice(VARS)])
@@ -428,6 +440,127 @@ def gen_nested_memo_case(rng, i):
     return {"kind": "history", "cfg": cfg, "ops": ops, "_meta": {"stream": "nested-memo"}}
 
 
+OPTIONAL_SHAPES = ["plain", "plain", "never", "nested", "under_file", "dotdot", "both", "twice", "directory", "import_inside"]
+
+
+def gen_optional_case(rng, i):
+    """`{% include "x" ignore missing %}` on ONE long-lived engine while the optionally included file comes and goes.
+    Configuration: root_dir x cache_enabled x relative_includes from `i` (every combination within 36 consecutive
+    values of i). Every case contains the core  render / delete / render / re-create / render  around the file that
+    decides (in a random order of first state: there or missing from the start), interleaved with random edits of the
+    including template, of the optional file and further renders. Shapes:
+      plain        top = A {io opt} Z
+      never        the same, but opt does not exist at the start
+      nested       top = A {io mid} Z, mid = M {i leaf}: deleting `leaf` must RAISE (the error comes from rendering
+                   mid, not from getting it); deleting `mid` renders as nothing
+      under_file   top = A {io blocker.j2/x.j2} Z: `blocker.j2` is a regular file. Without root_dir open() fails with
+                   ENOTDIR and NotADirectoryError escapes _Loader.get_source (not a TemplateNotFound: propagates);
+                   with root_dir FileSystemLoader says TemplateNotFound (swallowed). The file that comes and goes is
+                   the blocker
+      dotdot       top (in the root directory) = A {io ../up.j2} Z: with root_dir split_template_path refuses the name
+                   (TemplateNotFound: swallowed, whether or not w/up.j2 exists); without root_dir the file above the
+                   working directory is included while it exists
+      both         top = A {io opt} | {i opt} Z: the plain include of the same file still raises when it is gone
+      twice        top = A {io opt} {io opt} Z
+      directory    top = A {io sub} Z, `sub` is a directory (IsADirectoryError -> TemplateNotFound / isfile false) next
+                   to an ordinary optional include
+      import_inside  the optional file imports a library; the library is the file that comes and goes (an import has no
+                   `ignore missing`: raises)"""
+    cfg = {"root": bool(i & 1), "cache_enabled": [True, False, None][(i >> 1) % 3],
+           "relative": [True, False, None][(i // 6) % 3],
+           "context": gen_ctx(rng, "B") if rng.random() < 0.25 else None}
+    if rng.random() < 0.2:
+        cfg["cache_size"] = rng.choice([0, 1, 2, 50])
+    rel = effective(cfg)["relative"]
+    shape = OPTIONAL_SHAPES[(i // 36 + i) % len(OPTIONAL_SHAPES)] if rng.random() < 0.7 else rng.choice(OPTIONAL_SHAPES)
+    d = "" if shape == "dotdot" else rng.choice(["", "sub/", "sub/deep/"])
+    top = d + rng.choice(["a.j2", "b.j2"])
+
+    def ref(target):
+        name = rel_name(target, top) if rel else target
+        return "./" + name if rng.random() < 0.1 else name
+
+    opt, mid, leaf, blocker, lib = d + "opt.j2", d + "mid.j2", d + "leaf.j2", d + "blocker.j2", d + "lib1.j2"
+    ver = {}
+    stamp = [0]
+    ops = []
+
+    def body(path):
+        """current template of `path` for this shape (a new version text every time)"""
+        ver[path] = ver.get(path, 0) + 1
+        tag = ["t", "<%s#%d>" % (path.replace(".j2", ""), ver[path])]
+        if path == top:
+            inner = {"plain": [["io", ref(opt)]], "never": [["io", ref(opt)]],
+                     "nested": [["io", ref(mid)]],
+                     "under_file": [["io", ref(blocker) + "/x.j2"]],
+                     "dotdot": [["io", "../up.j2"]],
+                     "both": [["io", ref(opt)], ["t", "|"], ["i", ref(opt)]],
+                     "twice": [["io", ref(opt)], ["io", ref(opt)]],
+                     "directory": [["io", ref("sub") if d == "" else ref(d.rstrip("/"))], ["io", ref(opt)]],
+                     "import_inside": [["io", ref(opt)]]}[shape]
+            return [tag] + inner + [["v", "x"], ["t", "Z"]]
+        if path == mid:
+            return [tag, ["i", rel_name(leaf, mid) if rel else leaf]]
+        if path == opt and shape == "import_inside":
+            return [tag, ["m", rel_name(lib, opt) if rel else lib]]
+        return [tag, ["v", "y"]] if rng.random() < 0.5 else [tag]
+
+    def write(path, where=None):
+        stamp[0] += rng.choice([1, 1, 2, 5])
+        ops.append(["write", where or (ROOT + "/" + path), body(path), stamp[0]])
+
+    def delete(path, where=None):
+        ops.append(["delete", where or (ROOT + "/" + path)])
+
+    def render():
+        ops.append(["render", top if rng.random() < 0.9 else "./" + top, gen_ctx(rng, "c")])
+
+    # the file whose presence decides, and the other files of the shape
+    if shape == "nested":
+        comes_goes, fixed = rng.choice([mid, leaf]), [mid, leaf]
+    elif shape == "under_file":
+        comes_goes, fixed = blocker, [blocker]
+    elif shape == "dotdot":
+        comes_goes, fixed = "up.j2", ["up.j2"]
+    elif shape == "import_inside":
+        comes_goes, fixed = rng.choice([lib, opt]), [lib, opt]
+    else:
+        comes_goes, fixed = opt, [opt]
+    where = "w/up.j2" if shape == "dotdot" else None       # one level above the root / working directory
+    present = not (shape == "never" or rng.random() < 0.25)
+    for p in fixed:
+        if p != comes_goes or present:
+            write(p, where if p == "up.j2" else None)
+    write(top)
+    core = ["render", "toggle", "render", "toggle", "render"]
+    extra = [rng.choice(["render", "render", "edit_top", "edit_file", "toggle", "edit_other"])
+             for _ in range(rng.randrange(0, 5))]
+    # the core keeps its order; the extra operations are interleaved at random positions
+    word = list(core)
+    for e in extra:
+        word.insert(rng.randrange(0, len(word) + 1), e)
+    for w in word:
+        if w == "render":
+            render()
+        elif w == "toggle":
+            if present:
+                delete(comes_goes, where)
+            else:
+                write(comes_goes, where)
+            present = not present
+        elif w == "edit_top":
+            write(top)
+        elif w == "edit_file":
+            if present:
+                write(comes_goes, where)
+        else:
+            others = [p for p in fixed if p != comes_goes]
+            if others:
+                write(rng.choice(others))
+    render()
+    return {"kind": "history", "cfg": cfg, "ops": ops, "_meta": {"stream": "optional", "shape": shape}}
+
+
 def gen_access_case(rng, nq=None, exhaustive_entry=None):
     r = rng.random()
     if exhaustive_entry is not None:
@@ -564,7 +697,7 @@ def shrink_history(case):
     used = {op[1].rsplit("/", 1)[-1] for op in ops if op[0] == "render"}
     for op in ops:
         if op[0] == "write":
-            used |= {arg.rsplit("/", 1)[-1] for tag, arg in op[2] if tag in ("i", "m", "j", "y")}
+            used |= {arg.rsplit("/", 1)[-1] for tag, arg in op[2] if tag in NAME_TAGS}
     cand = [op for op in ops if op[0] == "render" or op[1].rsplit("/", 1)[-1] in used]
     if len(cand) < n:
         yield mk(o=cand)
@@ -598,7 +731,7 @@ def shrink_history(case):
             for j in range(len(t)):
                 yield mk(o=ops[:i] + [[op[0], op[1], _without(t, j), op[3]]] + ops[i + 1:])
             for j, (tag, arg) in enumerate(t):
-                if tag == "m":
+                if tag in ("m", "io"):
                     yield mk(o=ops[:i] + [[op[0], op[1], t[:j] + [["i", arg]] + t[j + 1:], op[3]]] + ops[i + 1:])
                 if tag == "t" and len(arg) > 1:
                     yield mk(o=ops[:i] + [[op[0], op[1], t[:j] + [["t", arg[:1]]] + t[j + 1:], op[3]]] + ops[i + 1:])
